@@ -174,6 +174,8 @@ type listener struct {
 	option   []transport.Option
 	options  *transport.Options
 	acceptor transport.Acceptor
+	mutex    sync.Mutex // guards acceptor, options and closed (Close / Shutdown may run while Sync starts)
+	closed   bool
 }
 
 // Acceptor returned the acceptor
@@ -184,6 +186,12 @@ func (l *listener) Acceptor() transport.Acceptor {
 // Close listener
 func (l *listener) Close() error {
 	l.bs.removeListener(l.url)
+
+	l.mutex.Lock()
+	defer l.mutex.Unlock()
+	// remember it: the accept loop may not have created its acceptor yet
+	l.closed = true
+
 	if l.acceptor != nil {
 		return l.acceptor.Close()
 	}
@@ -193,18 +201,36 @@ func (l *listener) Close() error {
 // Sync accept new transport from listener
 func (l *listener) Sync() error {
 
+	l.mutex.Lock()
+
 	if nil != l.acceptor {
+		l.mutex.Unlock()
 		return fmt.Errorf("duplicate call Listener:Sync")
 	}
 
 	var err error
 	if l.options, err = transport.ParseOptions(l.bs.Context(), l.url, l.option...); nil != err {
+		l.mutex.Unlock()
 		return err
 	}
 
 	if l.acceptor, err = l.bs.transportFactory.Listen(l.options); nil != err {
+		l.mutex.Unlock()
 		return err
 	}
+
+	// Close or Shutdown may have run before the acceptor existed (they found nothing to close):
+	// do not start accepting in that case, the loop below then ends with the close error.
+	select {
+	case <-l.options.Context.Done():
+		l.closed = true
+	default:
+	}
+	if l.closed {
+		_ = l.acceptor.Close()
+	}
+
+	l.mutex.Unlock()
 
 	for {
 		// accept the transport
